@@ -10,7 +10,7 @@ def correspondence(ctx):
     corr = Corr()
     impl = rle_check(ctx, corr, ['widthmap'], ['widthmap'])
     keys = [s_ for s_, e, v in impl['widthmap'] for s_ in range(s_, e + 1) if v != 'none' and s_ < 0x110000]
-    alpha = PLAIN + [0xFF21, 0xFF76, 0xFFE0, 0x3000] + [0xB5, 0x2460, 0xFB01]
+    alpha = xa(ctx, PLAIN + [0xFF21, 0xFF76, 0xFFE0, 0x3000] + [0xB5, 0x2460, 0xFB01], 5)
     cases = []
     maxlen = 3 if ctx.tier == 'quick' else 5
     for s in all_strings(alpha, maxlen):
